@@ -17,7 +17,7 @@ import time
 from collections import Counter
 from concurrent.futures import ThreadPoolExecutor
 
-from lib import h_opt
+from lib import h_opt, h_targets
 from lib.vf import PY, REPO, VERIF, Ctx, open_known
 
 PROPS = "theories/Props/C19.v"
@@ -259,6 +259,8 @@ def run(ctx: Ctx) -> int:
     for d in diffs:
         ctx.broken.append("model and implementation disagree: %s" % json.dumps(d, ensure_ascii=False, default=str)[:300])
     ctx.log("correspondence: %d synthetic, %d differences, %.0fs" % (len(syn), len(diffs), time.time() - t0))
+    # the REAL targets: objectives regenerated from the tree (tr_targets), Props/C19_targets.v, tie to the real objects
+    findings += h_targets.run(ctx)
 
     for e in open_known("C19"):          # none at the time of writing; kept for the decision logic
         r, err = worker({"job": e["witness"]["mode"], "seed": 0, "configs": [e["witness"].get("config")],
@@ -359,6 +361,8 @@ def replay(ctx: Ctx, path) -> int:
         bad = h_opt.parse_bad(txt) if rc == 0 else None
         print("model agrees with implementation:", bad == [])
         return 0 if bad == [] and x["deterministic"] else 1
+    if mode == "targets" and inp.get("config"):
+        return h_targets.replay(ctx, inp)
     if mode in ("real", "weapon") and inp.get("config"):
         r, err = worker({"job": mode, "seed": 0, "configs": [inp["config"]]})
         if r is None:
